@@ -889,6 +889,55 @@ struct Lab {
                             y2::virtual_ptr<std::shared_ptr<const Animal>, P> p7(p5);
                             check_vptr(p7);
                         }
+                        // assignment over a pointer to an object of another
+                        // class, from lvalues and rvalues of the same and of
+                        // other static types
+                        {
+                            Animal& base_obj = objs().animal;
+                            Animal& this_obj = *a;
+                            y2::virtual_ptr<Animal, P> q(base_obj);
+                            y2::virtual_ptr<Animal, P> same(this_obj);
+                            q = same;
+                            check_vptr(q);
+                            q = y2::virtual_ptr<Animal, P>(base_obj);
+                            check_vptr(q);
+                            q = y2::virtual_ptr<Animal, P>(this_obj);
+                            check_vptr(q);
+                            std::shared_ptr<Animal> sb = objs().s_animal;
+                            y2::virtual_ptr<std::shared_ptr<Animal>, P> sq(sb);
+                            y2::virtual_ptr<std::shared_ptr<Animal>, P> ssame(sa);
+                            sq = ssame;
+                            check_vptr(sq);
+                            sq = y2::virtual_ptr<std::shared_ptr<Animal>, P>(sb);
+                            check_vptr(sq);
+                            sq = std::move(ssame);
+                            check_vptr(sq);
+                            if (tuple[0] == cDog) {
+                                y2::virtual_ptr<Dog, P> typed(objs().dog);
+                                q = y2::virtual_ptr<Animal, P>(base_obj);
+                                q = typed;
+                                check_vptr(q);
+                                q = y2::virtual_ptr<Animal, P>(base_obj);
+                                q = y2::virtual_ptr<Dog, P>(objs().dog);
+                                check_vptr(q);
+                                q = y2::virtual_ptr<Animal, P>(base_obj);
+                                q = std::move(typed);
+                                check_vptr(q);
+                                std::shared_ptr<Dog> sd = std::static_pointer_cast<Dog>(sa);
+                                y2::virtual_ptr<std::shared_ptr<Dog>, P> styped(sd);
+                                sq = y2::virtual_ptr<std::shared_ptr<Animal>, P>(sb);
+                                sq = styped;
+                                check_vptr(sq);
+                                sq = y2::virtual_ptr<std::shared_ptr<Animal>, P>(sb);
+                                sq = std::move(styped);
+                                check_vptr(sq);
+                            }
+                            if (tuple[0] == cBulldog) {
+                                sq = y2::virtual_ptr<std::shared_ptr<Animal>, P>(sb);
+                                sq = y2::make_virtual_shared<Bulldog, P>();
+                                check_vptr(sq);
+                            }
+                        }
                     } catch (TwThrow&) {
                         g_seen.vptr_bad = 1;
                     }
